@@ -5,8 +5,9 @@ ids="$@"
 [ -z "$ids" ] && ids="C01 C02 C03 C04 C05 C06 C07 C08 C09 C10 C11 C12 C13 C14 C15 C16 C17 C18 C20 C19"
 for c in $ids; do
   s=$(date +%s)
-  out=$(./check $c --tier $tier 2>&1 | tail -1)
+  full=$(./check $c --tier $tier 2>&1)
   rc=$?
+  out=$(printf '%s\n' "$full" | tail -1)
   e=$(date +%s)
   echo "$c rc=$rc $((e-s))s :: $out"
 done
